@@ -30,6 +30,7 @@ MAX_DEPTH = 4
 MAX_BLOCKS = 4000
 
 _known = None
+_CTX = {}
 
 
 def known():
@@ -95,6 +96,7 @@ def inline_crate(j):
         return {'inlined': 0, 'dropped': []}
     renamed = _alias_renamed(j, kn)
     by_name = {f['name']: f for f in j['fns']}
+    _CTX['by_name'], _CTX['j'] = by_name, j
     stats = {'inlined': 0, 'dropped': [], 'sites': [], 'renamed': renamed}
     uninlined_calls = set()
 
@@ -240,6 +242,117 @@ def _used_as_value(j, name):
     return any(walk(f['blocks']) for f in j['fns'] if f['name'] != name)
 
 
+def _cparam_names(x, out):
+    if isinstance(x, dict):
+        if x.get('k') == 'cparam' and 'name' in x:
+            out.add(x['name'])
+        for v in x.values():
+            _cparam_names(v, out)
+    elif isinstance(x, list):
+        for y in x:
+            _cparam_names(y, out)
+
+
+def _subst_const_generics(body, g, t):
+    """a helper with one const generic parameter, called with a literal: specialise the spliced copy
+    (the static analogue of monomorphisation), folding `if PARAM` switches"""
+    names = set()
+    _cparam_names(body, names)
+    for b in body:
+        bt = b['term']
+        if bt['t'] == 'call':
+            for a in bt['callee'].get('args', []):
+                if isinstance(a, str) and a.isidentifier() and a.isupper():
+                    names.add(a)
+    lits = [a for a in t['callee'].get('args', []) if isinstance(a, str) and (a in ('true', 'false') or a.isdigit())]
+    if len(names) != 1 or len(lits) != 1:
+        return
+    name, val = next(iter(names)), lits[0]
+    ty = 'bool' if val in ('true', 'false') else 'usize'
+
+    def fix(x):
+        if isinstance(x, dict):
+            if x.get('k') == 'cparam' and x.get('name') == name:
+                x.clear()
+                x.update({'k': 'val', 'v': val, 'ty': ty, 's': 'const ' + val})
+                return
+            if 'callee' in x and isinstance(x['callee'], dict) and 'args' in x['callee']:
+                x['callee']['args'] = [val if a == name else a for a in x['callee']['args']]
+            for v in x.values():
+                fix(v)
+        elif isinstance(x, list):
+            for y in x:
+                fix(y)
+    fix(body)
+    # closures built in the specialised copy are specialised too (they inherit the const parameter)
+    def spec_closures(blocks, depth=0):
+        by_name, j = _CTX.get('by_name'), _CTX.get('j')
+        if by_name is None or depth > 3:
+            return
+        for b in blocks:
+            for st in b['stmts']:
+                rv = st.get('rv') or {}
+                if rv.get('r') == 'agg' and rv.get('kind', {}).get('k') == 'closure':
+                    old = rv['kind']['path']
+                    cf = by_name.get(old)
+                    if cf is None or old.endswith('>') and old.rsplit('<', 1)[-1] in ('true>', 'false>'):
+                        continue
+                    names2 = set()
+                    _cparam_names(cf['blocks'], names2)
+                    uses = name in names2 or any(name in (bb['term'].get('callee', {}).get('args') or []) for bb in cf['blocks'] if bb['term']['t'] == 'call')
+                    if not uses:
+                        continue
+                    new_name = '%s<%s>' % (old, val)
+                    if new_name not in by_name:
+                        c2 = copy.deepcopy(cf)
+                        c2['name'] = new_name
+                        c2.pop('_inl_done', None)
+                        fix(c2['blocks'])
+                        _fold(c2['blocks'])
+                        spec_closures(c2['blocks'], depth + 1)
+                        by_name[new_name] = c2
+                        j['fns'].append(c2)
+                    rv['kind']['path'] = new_name
+
+    def _fold(blocks):
+        if ty != 'bool':
+            return
+        for b in blocks:
+            bt = b['term']
+            if bt['t'] != 'switch' or bt['d'].get('o') not in ('copy', 'move') or bt['d']['pl']['p']:
+                continue
+            l = bt['d']['pl']['l']
+            src = [st for st in b['stmts'] if st['s'] == 'assign' and st['pl']['l'] == l and not st['pl']['p']]
+            if len(src) == 1 and src[0]['rv']['r'] == 'use' and src[0]['rv']['a'].get('o') == 'const' and src[0]['rv']['a']['c'].get('k') == 'val' and src[0]['rv']['a']['c'].get('v') == val:
+                tgt = None
+                for v, tb in bt['targets']:
+                    if (v == '0') == (val == 'false'):
+                        tgt = tb
+                if tgt is None:
+                    tgt = bt['otherwise']
+                b['term'] = {'t': 'goto', 'to': tgt}
+    spec_closures(body)
+    _fold(body)
+    return
+    if ty != 'bool':
+        return
+    for b in body:
+        bt = b['term']
+        if bt['t'] != 'switch' or bt['d'].get('o') not in ('copy', 'move') or bt['d']['pl']['p']:
+            continue
+        l = bt['d']['pl']['l']
+        src = [st for st in b['stmts'] if st['s'] == 'assign' and st['pl']['l'] == l and not st['pl']['p']]
+        if len(src) == 1 and src[0]['rv']['r'] == 'use' and src[0]['rv']['a'].get('o') == 'const' and src[0]['rv']['a']['c'].get('k') == 'val' and src[0]['rv']['a']['c'].get('v') == val:
+            # switchInt on a bool: target for 0 (false) listed, otherwise = true
+            tgt = None
+            for v, tb in bt['targets']:
+                if (v == '0') == (val == 'false'):
+                    tgt = tb
+            if tgt is None:
+                tgt = bt['otherwise']
+            b['term'] = {'t': 'goto', 'to': tgt}
+
+
 def _splice(f, bi, g, how):
     """replace the call terminating block bi of f by the body of g"""
     t = f['blocks'][bi]['term']
@@ -249,6 +362,7 @@ def _splice(f, bi, g, how):
     db = len(f['blocks'])
     dp = len(f.get('promoted', []))
     body = copy.deepcopy(g['blocks'])
+    _subst_const_generics(body, g, t)
     _shift(body, dl, db, dp)
     # parameter passing
     pre = []
